@@ -646,6 +646,185 @@ def replay_tz(ctx, rp):
     raise ToolError("this witness is re-checked by re-running the property's quick command")
 
 
+# ---------------------------------------------------------------------------------------------
+# Text (C11, C12, C13, C14, C20)
+# ---------------------------------------------------------------------------------------------
+TEXT = {
+    # pid: scenario of the random recorder, generator shards, random events quick/thorough
+    "C11": dict(scen="text11", gshards=8, ev=(60000, 600000)),
+    "C12": dict(scen="text12", gshards=8, ev=(40000, 400000)),
+    "C13": dict(scen="text13", gshards=8, ev=(40000, 400000)),
+    "C20": dict(scen="text20", gshards=4, ev=(40000, 400000)),
+}
+
+
+def text_key(e):
+    p = "".join(e.get("p", []))
+    shape = "".join(sorted(set(p)))[:24]
+    v = e.get("val", {})
+    era = "bc" if v.get("dn", 0) < 0 else "ad"
+    return (e.get("op"), v.get("ty"), shape, era, v.get("off", 0) != 0, e.get("prec"), len(e.get("s", [])) if e.get("op") == "rfc_read" else None)
+
+
+def observe_and_validate(ctx, cases, shards=8):
+    """Channel A for text: TLC-generated inputs -> real code (harness observe) -> Trace_Text."""
+    from concurrent.futures import ThreadPoolExecutor
+    rows = open(cases).read().splitlines()
+    parts = []
+    for k in range(shards):
+        pth = ctx.path("in-%d.ndjson" % k)
+        with open(pth, "w") as f:
+            f.write("\n".join(rows[k::shards]) + ("\n" if rows[k::shards] else ""))
+        parts.append(pth)
+    obs = [ctx.path("obs-%d.ndjson" % k) for k in range(shards)]
+
+    def ob(k):
+        return harness_json(["observe", "--cases", parts[k], "--out", obs[k]])
+    with ThreadPoolExecutor(max_workers=8) as ex:
+        list(ex.map(ob, range(shards)))
+    return obs
+
+
+def text_validate(ctx, traces, origin, replay_info):
+    total, bad = parallel_validate(ctx, "Trace_Text", traces, jobs=8, timeout=3000)
+    ctx.evaluations += total
+    for t in traces:
+        with open(t) as fh:
+            for n, line in enumerate(fh):
+                e = json.loads(line)
+                ctx.distinct.add(text_key(e))
+                if n in (3, 1777) and t == traces[0]:
+                    ctx.sample({k: ("".join(v) if isinstance(v, list) and v and isinstance(v[0], str) else v) for k, v in e.items()})
+    for b in bad:
+        e = b["event"]
+        for cl in b["clauses"]:
+            if not cl.startswith(ctx.pid):
+                # a clause of a neighbouring text property observed on the way (e.g. C11 inside a C12 record)
+                cl = ctx.pid + ".via_" + cl
+            ctx.violations.append({"clause": cl, "class": e.get("op"),
+                                   "witness": {"origin": origin, "event": e, "expected": b.get("expected"),
+                                               "pattern_text": "".join(e.get("p", [])), **replay_info}})
+    return total
+
+
+def text_check(ctx):
+    cfg = TEXT[ctx.pid]
+    build_harness()
+    model_check(ctx, "MC_Pattern", "MC_Pattern_full" if ctx.thorough else "MC_Pattern_quick", workers=8, timeout=3000, heap="6g")
+    if ctx.pid in ("C11", "C12", "C20"):
+        model_check(ctx, "MC_Civil", "MC_Civil_quick", workers=4)     # the calendar fields the renderer reads
+    cases = gen_cases(ctx, "Gen_Text", ctx.pid, cfg["gshards"], cfg="Gen_Text")
+    obs = observe_and_validate(ctx, cases)
+    text_validate(ctx, obs, "generated", {})
+    # channel B: random observations
+    from concurrent.futures import ThreadPoolExecutor
+    ev = cfg["ev"][1 if ctx.thorough else 0]
+    shards = 8
+    per = ev // shards
+    traces = [ctx.path("rnd-%d.ndjson" % k) for k in range(shards)]
+    seeds = [ctx.seed * 6151 + k for k in range(shards)]
+
+    def rec(k):
+        return harness_json(["record-text", "--scenario", cfg["scen"], "--out", traces[k], "--n", per], env_extra={"VERIF_SEED": seeds[k]})
+    with ThreadPoolExecutor(max_workers=8) as ex:
+        list(ex.map(rec, range(shards)))
+    text_validate(ctx, traces, "random", {"scenario": cfg["scen"], "n": per, "seeds": seeds})
+    if ctx.pid == "C12":
+        ctx.extra["note"] = "records outside the unambiguous-pattern grammar (Trace_Text!Unambiguous / Recon) are recorded but not judged"
+    return finish(ctx, rule="channel A: TLC enumerates the inputs of Gen_Text/%s, the real code is run on each (harness observe) and "
+                  "Trace_Text judges every observation with the Pattern / Rfc3339 operators on the value's local view; channel B: "
+                  "random values x random patterns / strings (scenario %s) judged the same way. MC_Pattern checks the "
+                  "character-at-a-time tokenizer machine against its definition on every pattern up to length 6 (7). "
+                  "distinct_nontrivial = distinct (operation, type, set of pattern characters, era, offset?, precision/length) classes."
+                  % (ctx.pid, cfg["scen"]),
+                  trusted=["harness: value construction (from_timestamp, add_nanos, set_offset), character re-encoding of strings"])
+
+
+for _pid in TEXT:
+    CHECKS[_pid] = text_check
+
+
+@check("C14")
+def c14(ctx):
+    build_harness()
+    model_check(ctx, "MC_Pattern", "MC_Pattern_full" if ctx.thorough else "MC_Pattern_quick", workers=8, timeout=3000, heap="6g")
+    cases = gen_cases(ctx, "Gen_Text", "C14", 8, cfg="Gen_Text")
+    # the families are expanded exhaustively by the harness, in parallel slices
+    from concurrent.futures import ThreadPoolExecutor
+    rows = open(cases).read().splitlines()
+    shards = 12
+    outs = []
+
+    def fam(k):
+        part = ctx.path("fam-%d.ndjson" % k)
+        with open(part, "w") as f:
+            f.write("\n".join(rows[k::shards]) + "\n")
+        out = ctx.path("fam-%d.fail" % k)
+        r = harness_json(["families", "--cases", part, "--out", out], timeout=7000)
+        return r, out
+    with ThreadPoolExecutor(max_workers=12) as ex:
+        res = list(ex.map(fam, range(shards)))
+    classes = {}
+    for r, out in res:
+        ctx.evaluations += r["cases"]
+        for k, v in r["classes"].items():
+            classes[k] = classes.get(k, 0) + v
+        for smp in r.get("samples", [])[:1]:
+            ctx.sample(smp)
+        for f in read_ndjson(out):
+            c, o = f["case"], f["observed"]
+            ctx.violations.append({"clause": "C14.%s.%s" % (o["k"], c["op"]), "class": "".join(c.get("p", []))[:12] or c["op"],
+                                   "witness": {"case": dict(c, exp=[{"k": "noncrash"}]), "observed": o,
+                                               "input_text": "".join(c.get("s", [])), "pattern_text": "".join(c.get("p", []))}})
+    for row in rows:
+        f = json.loads(row)
+        ctx.distinct.add((f["op"], f.get("ty"), f.get("sym"), f.get("w"), "".join(f.get("base", []))))
+    ctx.extra["family_outcomes"] = classes
+    ctx.exhaustive = True
+    # channel B: grammar-aware and mutational random pairs, judged by Trace_Text (NoPanicClauses)
+    shards = 8
+    per = (1000000 if ctx.thorough else 120000) // shards
+    traces = [ctx.path("rnd-%d.ndjson" % k) for k in range(shards)]
+    seeds = [ctx.seed * 4099 + k for k in range(shards)]
+
+    def rec(k):
+        return harness_json(["record-text", "--scenario", "text14", "--out", traces[k], "--n", per], env_extra={"VERIF_SEED": seeds[k]})
+    with ThreadPoolExecutor(max_workers=8) as ex:
+        list(ex.map(rec, range(shards)))
+    text_validate(ctx, traces, "random", {"scenario": "text14", "n": per, "seeds": seeds})
+    return finish(ctx, level="fault_enumeration",
+                  rule="the specification contributes the input space: for each of the 19 symbols x widths 1..10 x 3 types, EVERY "
+                  "input string up to length 3 (4 thorough) over {0 7 - + a Z : e-acute CJK}; every pattern up to length 5 (6) over "
+                  "{y M ' - Q H} (incl. unbalanced quotes) x 12 inputs for parse and x 1 value for format; every truncation, "
+                  "single-character deletion, substitution and insertion of RFC 3339 and cron seeds (also through FromStr and serde); "
+                  "every string up to length 4 (5) through from_str / serde; each family expanded exhaustively by the harness under "
+                  "catch_unwind with overflow checks on. Plus random grammar-aware and mutational pairs judged by Trace_Text. The "
+                  "only allowed outcomes: Err, or Ok with a valid in-range value. distinct_nontrivial = number of distinct families.",
+                  trusted=["harness: family expansion and outcome classification"])
+
+
+def replay_text(ctx, rp):
+    w = rp["witness"]
+    build_harness()
+    if "case" in w:
+        cases = ctx.path("case.ndjson")
+        write_ndjson(cases, [w["case"]])
+        mism = cases + ".mism"
+        harness_json(["replay", "--cases", cases, "--out", mism])
+        for m in read_ndjson(mism):
+            ctx.violations.append({"clause": rp.get("clause", ctx.pid), "class": "replay", "witness": m})
+        return
+    e = {k: v for k, v in w["event"].items() if k in ("op", "ty", "val", "p", "s", "prec") and not (k == "s" and w["event"]["op"] in ("roundtrip", "fromstr"))}
+    cases = ctx.path("case.ndjson")
+    write_ndjson(cases, [e])
+    obs = ctx.path("obs.ndjson")
+    harness_json(["observe", "--cases", cases, "--out", obs])
+    n, bad = validate_trace(ctx, "Trace_Text", obs)
+    for b in bad:
+        for cl in b["clauses"]:
+            ctx.violations.append({"clause": cl, "class": "replay", "witness": b})
+
+
 def replay_civil(ctx, rp):
     w = rp["witness"]
     table = civil_common(ctx)
@@ -676,6 +855,8 @@ def replay_civil(ctx, rp):
 REPLAYERS = {"C01": replay_civil, "C02": replay_civil}
 for _pid in OPS:
     REPLAYERS[_pid] = replay_ops
+for _pid in list(TEXT) + ["C14"]:
+    REPLAYERS[_pid] = replay_text
 REPLAYERS["C18"] = replay_tz
 REPLAYERS["C19"] = replay_tz
 REPLAYERS["C16"] = replay_cron
